@@ -1,9 +1,171 @@
-//! C08 scan part (ancestor search through AutoMerge::scan_proofs).
+//! C08 scan part: the ancestor search `AutoMerge::scan_proofs` over the real
+//! direct client, with the device's folder log set to P ++ A and the
+//! server's to P ++ B.
+use crate::engine_acct::{cfg_strategy, AcctCfg};
+use crate::engine_sync::*;
 use crate::framework::*;
+use proptest::prelude::*;
+use serde::{Deserialize, Serialize};
 use serde_json::Value;
+use sos_account::Account;
+use sos_core::events::EventLogType;
+use sos_protocol::{AsConflict, ScanRequest};
+use sos_remote_sync::AutoMerge;
 
-pub fn run(_shard: &Shard, _rep: &mut Report) {}
+#[derive(Clone, Debug, Serialize, Deserialize, PartialEq, Eq, Hash)]
+pub struct ScanCase {
+    pub cfg: AcctCfg,
+    pub server_db: bool,
+    /// number of shared prefix events beyond the two seed secrets (0..70 crosses the 32-proof page)
+    pub prefix: u8,
+    /// device 0 suffix (A) and device 1 suffix (B, pushed to the server)
+    pub a: Vec<Edit>,
+    pub b: Vec<Edit>,
+}
 
-pub fn replay(_shard: &Shard, _case: &Value) -> CheckResult {
+fn folder_edit() -> impl Strategy<Value = Edit> {
+    let word = prop_oneof![Just("x".to_string()), Just("y".to_string())];
+    prop_oneof![
+        4 => (word.clone(), "[a-z]{1,4}").prop_map(|(label, text)| Edit::CreateSecret { folder: 0, label, text }),
+        4 => (prop_oneof![Just(0u16), Just(40000u16), any::<u16>()], word.clone(), "[a-z]{1,4}").prop_map(|(sec, label, text)| Edit::UpdateSecret { sec, label, text }),
+        3 => prop_oneof![Just(0u16), Just(40000u16), any::<u16>()].prop_map(|sec| Edit::DeleteSecret { sec }),
+        2 => word.clone().prop_map(|name| Edit::RenameFolder { folder: 0, name }),
+        2 => word.prop_map(|text| Edit::SetDescription { folder: 0, text }),
+    ]
+}
+
+pub fn case_strategy() -> impl Strategy<Value = ScanCase> {
+    (
+        cfg_strategy(),
+        any::<bool>(),
+        prop_oneof![4 => 0u8..8, 2 => 25u8..40, 1 => 60u8..72],
+        proptest::collection::vec(folder_edit(), 0..6),
+        proptest::collection::vec(folder_edit(), 0..6),
+    )
+        .prop_map(|(cfg, server_db, prefix, a, b)| ScanCase { cfg, server_db, prefix, a, b })
+}
+
+pub fn check(c: &ScanCase) -> (CaseInfo, CheckResult) {
+    let mut info = CaseInfo::default();
+    let r = block_on(async {
+        let r = run_case(c, &mut info).await;
+        sos_core::verif::set_clock(None);
+        r
+    });
+    (info, r)
+}
+
+async fn run_case(c: &ScanCase, info: &mut CaseInfo) -> CheckResult {
+    let mut w = SyncWorld::new(&c.cfg, c.server_db).await?;
+    apply_edit(&mut w, 0, &Edit::CreateSecret { folder: 0, label: "one".into(), text: "1".into() }).await?;
+    apply_edit(&mut w, 0, &Edit::CreateSecret { folder: 0, label: "two".into(), text: "2".into() }).await?;
+    for i in 0..c.prefix {
+        apply_edit(&mut w, 0, &Edit::UpdateSecret { sec: 0, label: "one".into(), text: format!("p{i}") }).await?;
+    }
+    for _ in 0..2 {
+        w.sync(0).await.map_err(|e| Failure::new("harness/initial-sync", format!("initial sync failed: {e}")))?;
+    }
+    w.clone_device(0).await?;
+    // device 1 makes B and pushes it; device 0 makes A and stays offline
+    for e in &c.b {
+        apply_edit(&mut w, 1, e).await?;
+    }
+    w.sync(1).await.map_err(|e| Failure::new("harness/push-b", format!("pushing B failed: {e}")))?;
+    for e in &c.a {
+        apply_edit(&mut w, 0, e).await?;
+    }
+    // the default folder and both logs
+    let folder_id = {
+        let a = w.devices[0].account.lock().await;
+        let f = a.default_folder().await.ok_or_else(|| Failure::new("harness/no-default-folder", "no default folder"))?;
+        *f.id()
+    };
+    let key = format!("folder:{folder_id}");
+    let local = {
+        let a = w.devices[0].account.lock().await;
+        all_logs(&*a).await?.remove(&key).unwrap_or_default()
+    };
+    let remote = {
+        let sv = w.server.read().await;
+        all_logs(sv.storage.as_ref().unwrap()).await?.remove(&key).unwrap_or_default()
+    };
+    let lc: Vec<[u8; 32]> = local.iter().map(|r| r.commit).collect();
+    let rc: Vec<[u8; 32]> = remote.iter().map(|r| r.commit).collect();
+    let common = lc.iter().zip(rc.iter()).take_while(|(a, b)| a == b).count();
+    info.inner_evals = 1;
+    info.class(format!("common-prefix/{}", if common > 32 { ">32" } else if common > 8 { "9..32" } else { "<=8" }));
+    if lc == rc {
+        info.class("equal-logs");
+    }
+    // positions where the leaves agree although an earlier position differs
+    let false_points: Vec<usize> = (common..lc.len().min(rc.len())).filter(|i| lc[*i] == rc[*i]).collect();
+    if !false_points.is_empty() {
+        info.nontrivial = true;
+        info.class("agreeing-leaf-after-divergence");
+    }
+    if lc.len() != rc.len() && common > 0 {
+        info.nontrivial = true;
+        info.class("different-lengths");
+    }
+    let bridge = w.devices[0].bridge.clone();
+    w.enter(0);
+    let res = bridge.scan_proofs(ScanRequest { log_type: EventLogType::Folder(folder_id), offset: 0, limit: 32 }).await;
+    w.leave(0);
+    match res {
+        Ok(Some((commit, proof))) => {
+            // the ancestor must be a common prefix point: logs equal up to and including it
+            let pos = proof.length;
+            if pos == 0 || pos > lc.len() || lc[pos - 1] != *commit.as_ref() {
+                return Err(Failure::new(
+                    "c08/scan/ancestor-proof-inconsistent",
+                    format!("scan returned commit {} with a proof of length {} that does not end at that commit in the local log ({} records)", commit, pos, lc.len()),
+                ));
+            }
+            if pos > common {
+                return Err(Failure::new(
+                    "c08/scan/ancestor-not-a-common-prefix",
+                    format!("scan returned position {} as the common ancestor but the logs only share their first {} records (local {} / remote {} records)", pos, common, lc.len(), rc.len()),
+                ));
+            }
+            if pos < common {
+                info.class("non-longest-ancestor");
+            } else {
+                info.class("longest-ancestor");
+            }
+        }
+        Ok(None) => {
+            // exhausted without a match: only legitimate when nothing is shared within range
+            if common > 0 {
+                return Err(Failure::new(
+                    "c08/scan/common-prefix-not-found",
+                    format!("scan found no ancestor although the logs share their first {} records (local {} / remote {})", common, lc.len(), rc.len()),
+                ));
+            }
+            info.class("no-ancestor");
+        }
+        Err(e) => {
+            if e.is_hard_conflict() {
+                if common > 0 {
+                    return Err(Failure::new(
+                        "c08/scan/hard-conflict-with-common-prefix",
+                        format!("scan reported a hard conflict although the logs share their first {} records (local {} / remote {})", common, lc.len(), rc.len()),
+                    ));
+                }
+                info.class("hard-conflict");
+            } else {
+                return Err(Failure::new("c08/scan/error", format!("scan_proofs failed: {e}")));
+            }
+        }
+    }
     Ok(())
+}
+
+pub fn run(shard: &Shard, rep: &mut Report) {
+    let t = shard.tier;
+    drive(shard, rep, "scan", shard.share(t.pick(200, 3_000)), case_strategy(), |c| check(c));
+}
+
+pub fn replay(_shard: &Shard, case: &Value) -> CheckResult {
+    let c: ScanCase = from_case(case).map_err(|e| Failure::new("harness", e))?;
+    check(&c).1
 }
